@@ -447,8 +447,227 @@ fn run_cache_put(ctl: &Arc<Ctl>, rng: &mut Rng_, out: &mut Vec<String>, run: usi
     emit(out, json!({"ev": "AfEnd", "ok": matches!(res, Ok(Ok(())))}));
 }
 
+// ------------------------------------------------------------------------------------------------ syscall level
+// Hook-independent crash exploration (bin/checks/c19.py `sys`): the operation runs in its own process under strace;
+// the python side kills a fresh run just before every file-system-modifying system call (strace fault injection,
+// SIGKILL on syscall entry) and has the surviving directory described by the real components here.
+//   mode=sys_setup    proto= seed= base=     build <base>/dir with the prior history, write <base>/meta.json
+//   mode=sys_run      proto= seed= dir=      perform the operation on dir (between two marker system calls)
+//   mode=sys_describe proto= seed= base= dirs=a,b,c out=   describe every directory (re-open by the real component)
+const MARK_BEGIN: &str = "/nonexistent-xv-marker-begin";
+const MARK_END: &str = "/nonexistent-xv-marker-end";
+
+fn sys_rt() -> tokio::runtime::Runtime {
+    tokio::runtime::Builder::new_multi_thread().worker_threads(1).enable_all().build().unwrap()
+}
+
+fn mk_xorb(rng: &mut Rng_) -> (MerkleHash, Vec<u8>, Vec<(MerkleHash, u32)>) {
+    let n = rng.gen_range(1..4usize);
+    let mut data = vec![];
+    let mut cab = vec![];
+    let mut leaves = vec![];
+    for _ in 0..n {
+        let l = rng.gen_range(1..200usize);
+        let mut d = vec![0u8; l];
+        rng.fill(&mut d[..]);
+        let h = compute_data_hash(&d);
+        data.extend_from_slice(&d);
+        cab.push((h, data.len() as u32));
+        leaves.push((h, l));
+    }
+    (merkledb::aggregate_hashes::cas_node_hash(&leaves), data, cab)
+}
+
+fn sys_cache_prior() -> [(usize, u32, u32); 3] {
+    [(0usize, 0u32, 1u32), (0, 1, 2), (1, 0, 2)]
+}
+
+fn sys_setup(a: &Args) -> anyhow::Result<String> {
+    let proto = a.str("proto", "shard_flush");
+    let seed = a.u64("seed", 1);
+    let base = PathBuf::from(a.str("base", "/nonexistent"));
+    let dir = base.join("dir");
+    std::fs::create_dir_all(&dir)?;
+    let mut rng = crate::util::rng(seed);
+    let mut names = serde_json::Map::new();
+    let mut before: Vec<Value> = vec![];
+    let mut extra = json!({});
+    match proto.as_str() {
+        "shard_flush" | "consolidate" => {
+            let k = rng.gen_range(1..5usize);
+            for i in 0..k {
+                let (s, xh) = small_shard(&mut rng, i as u64 + 1);
+                let p = s.write_to_directory(&dir).unwrap();
+                names.insert(p.file_name().unwrap().to_string_lossy().to_string(), json!(format!("i{}", i + 1)));
+                before.push(json!([format!("i{}", i + 1), xh.hex()]));
+                std::thread::sleep(std::time::Duration::from_millis(3));
+            }
+        },
+        "local_put" => {
+            let rt = sys_rt();
+            let client = rt.block_on(async {
+                let r = dir.clone();
+                tokio::task::spawn_blocking(move || LocalClient::new(&r, None)).await.unwrap().unwrap()
+            });
+            let k = rng.gen_range(0..4usize);
+            for i in 0..k {
+                let (xh, data, cab) = mk_xorb(&mut rng);
+                rt.block_on(client.put("default", &xh, data, cab)).unwrap();
+                names.insert(format!("default.{xh:?}"), json!(format!("i{}", i + 1)));
+                before.push(json!([format!("i{}", i + 1), xh.hex()]));
+            }
+        },
+        _ => {
+            let c = Content::new(&mut rng, 2, 4, 40);
+            let full: u64 = c.file(0, 0, 4).1;
+            let cap = full * rng.gen_range(1..3u64) + 10;
+            let cache = DiskCache::initialize(&CacheConfig { cache_directory: dir.clone(), cache_size: cap }).unwrap();
+            let mut bf: Vec<(String, usize, u32, u32)> = vec![];
+            for (i, (k, s, e)) in sys_cache_prior().iter().enumerate() {
+                if rng.gen_bool(0.8) {
+                    let (idx, d) = c.data(*k, *s, *e);
+                    if cache.put(&c.keys[*k], &ChunkRange { start: *s, end: *e }, &idx, &d).is_ok() {
+                        bf.push((format!("i{}", i + 1), *k, *s, *e));
+                    }
+                }
+            }
+            bf.retain(|(_, k, s, e)| matches!(cache.get(&c.keys[*k], &ChunkRange { start: *s, end: *e }), Ok(Some(_))));
+            for (n, k, s, e) in &bf {
+                before.push(json!([n, k, s, e]));
+                names.insert(c.item_path(&dir, *k, *s, *e).strip_prefix(&dir).unwrap().to_string_lossy().to_string(), json!(n));
+            }
+            extra = json!({"cap": cap});
+        },
+    }
+    let meta = json!({"proto": proto, "seed": seed, "names": names, "before": before, "extra": extra});
+    std::fs::write(base.join("meta.json"), meta.to_string())?;
+    Ok(json!({"driver": "atomicfs", "mode": "sys_setup", "inputs": before.len()}).to_string())
+}
+
+fn sys_run(a: &Args) -> anyhow::Result<String> {
+    let proto = a.str("proto", "shard_flush");
+    let seed = a.u64("seed", 1);
+    let dir = PathBuf::from(a.str("dir", "/nonexistent"));
+    let mut rng2 = crate::util::rng(seed.wrapping_add(7777));
+    let res: Result<Result<(), String>, String> = match proto.as_str() {
+        "shard_flush" => {
+            let (s, _) = small_shard(&mut rng2, 99);
+            let mut bytes = vec![];
+            MDBShardInfo::serialize_from(&mut bytes, &s).unwrap();
+            let _ = std::fs::remove_file(MARK_BEGIN);
+            let r = silent(|| {
+                if seed % 2 == 0 {
+                    s.write_to_directory(&dir).map(|_| ()).map_err(|e| format!("{e:?}"))
+                } else {
+                    MDBShardFile::write_out_from_reader(&dir, &mut Cursor::new(bytes)).map(|_| ()).map_err(|e| format!("{e:?}"))
+                }
+            });
+            let _ = std::fs::remove_file(MARK_END);
+            r
+        },
+        "consolidate" => {
+            let _ = std::fs::remove_file(MARK_BEGIN);
+            let r = silent(|| consolidate_shards_in_directory(&dir, 1 << 30).map(|_| ()).map_err(|e| format!("{e:?}")));
+            let _ = std::fs::remove_file(MARK_END);
+            r
+        },
+        "local_put" => {
+            let rt = sys_rt();
+            let (xh, data, cab) = mk_xorb(&mut rng2);
+            let d2 = dir.clone();
+            let client = rt.block_on(async move { LocalClient::new(&d2, None) }).map_err(|e| format!("{e:?}"));
+            match client {
+                Err(e) => Ok(Err(e)),
+                Ok(client) => {
+                    let _ = std::fs::remove_file(MARK_BEGIN);
+                    let r = silent(|| rt.block_on(client.put("default", &xh, data, cab)).map(|_| ()).map_err(|e| format!("{e:?}")));
+                    let _ = std::fs::remove_file(MARK_END);
+                    r
+                },
+            }
+        },
+        _ => {
+            let mut rng = crate::util::rng(seed);
+            let c = Content::new(&mut rng, 2, 4, 40);
+            let cap = a.u64("cap", 1000);
+            match silent(|| DiskCache::initialize(&CacheConfig { cache_directory: dir.clone(), cache_size: cap })) {
+                Ok(Ok(cache)) => {
+                    let (idx, d) = c.data(0, 0, 4);
+                    let _ = std::fs::remove_file(MARK_BEGIN);
+                    let r = silent(|| cache.put(&c.keys[0], &ChunkRange { start: 0, end: 4 }, &idx, &d).map_err(|e| format!("{e:?}")));
+                    let _ = std::fs::remove_file(MARK_END);
+                    r
+                },
+                _ => Ok(Err("initialize failed".into())),
+            }
+        },
+    };
+    Ok(json!({"driver": "atomicfs", "mode": "sys_run", "ok": matches!(res, Ok(Ok(()))), "res": format!("{res:?}")}).to_string())
+}
+
+fn sys_describe(a: &Args) -> anyhow::Result<String> {
+    let base = PathBuf::from(a.str("base", "/nonexistent"));
+    let meta: Value = serde_json::from_str(&std::fs::read_to_string(base.join("meta.json"))?)?;
+    let proto = meta["proto"].as_str().unwrap_or("").to_string();
+    let seed = meta["seed"].as_u64().unwrap_or(1);
+    let mut names: HashMap<String, String> = HashMap::new();
+    for (k, v) in meta["names"].as_object().unwrap() {
+        // the cache records relative paths; only the file name is looked at by the describers
+        let fname = Path::new(k).file_name().unwrap().to_string_lossy().to_string();
+        names.insert(fname, v.as_str().unwrap().to_string());
+    }
+    let rt = sys_rt();
+    let mut out = vec![];
+    for d in a.str("dirs", "").split(',').filter(|d| !d.is_empty()) {
+        let dir = base.join(d).join("dir");
+        let mut v = match proto.as_str() {
+            "shard_flush" | "consolidate" => {
+                let before: Vec<(String, MerkleHash)> = meta["before"]
+                    .as_array()
+                    .unwrap()
+                    .iter()
+                    .map(|b| (b[0].as_str().unwrap().to_string(), MerkleHash::from_hex(b[1].as_str().unwrap()).unwrap()))
+                    .collect();
+                describe_shard_dir(&dir, &names, &before)
+            },
+            "local_put" => {
+                let before: Vec<(String, MerkleHash)> = meta["before"]
+                    .as_array()
+                    .unwrap()
+                    .iter()
+                    .map(|b| (b[0].as_str().unwrap().to_string(), MerkleHash::from_hex(b[1].as_str().unwrap()).unwrap()))
+                    .collect();
+                describe_xorb_dir(&rt, &dir, &names, &before)
+            },
+            _ => {
+                let mut rng = crate::util::rng(seed);
+                let c = Content::new(&mut rng, 2, 4, 40);
+                let before: Vec<(String, usize, u32, u32)> = meta["before"]
+                    .as_array()
+                    .unwrap()
+                    .iter()
+                    .map(|b| (b[0].as_str().unwrap().to_string(), b[1].as_u64().unwrap() as usize, b[2].as_u64().unwrap() as u32, b[3].as_u64().unwrap() as u32))
+                    .collect();
+                describe_cache_dir(&c, &dir, meta["extra"]["cap"].as_u64().unwrap_or(1000), &before)
+            },
+        };
+        v["ev"] = json!("AfSysCrash");
+        v["dir"] = json!(d);
+        out.push(v.to_string());
+    }
+    let path = a.str("out", "/dev/null");
+    std::fs::write(&path, out.join("\n") + "\n")?;
+    Ok(json!({"driver": "atomicfs", "mode": "sys_describe", "n": out.len()}).to_string())
+}
+
 pub fn run(a: &Args) -> anyhow::Result<String> {
     crate::util::silence_panics();
+    match a.str("mode", "hooks").as_str() {
+        "sys_setup" => return sys_setup(a),
+        "sys_run" => return sys_run(a),
+        "sys_describe" => return sys_describe(a),
+        _ => {},
+    }
     let ctl = Ctl::new();
     ctl.install();
     let seed = a.u64("seed", 1);
